@@ -293,10 +293,19 @@ def gen_case(seed, tier='quick'):
     ops.extend(tail)
     if switches:
         sw = next(iter(switches))
-        ops.extend([{'op': 'set', 'target': sw, 'value': 1},
+        def maybe_aborted():
+            # an evaluation cut short right before the input changes
+            if rng.random() < 0.5:
+                return [{'op': 'eval', 'target': e, 'fault': {
+                    'kind': 'interrupt',
+                    'frac': round(rng.uniform(0.05, 1.0), 3)}}]
+            return []
+        ops.extend(maybe_aborted() +
+                   [{'op': 'set', 'target': sw, 'value': 1},
                     {'op': 'eval', 'target': e},
-                    {'op': 'eval', 'target': f'{sheets[0]}!Y2'},
-                    {'op': 'set', 'target': sw, 'value': 0},
+                    {'op': 'eval', 'target': f'{sheets[0]}!Y2'}] +
+                   maybe_aborted() +
+                   [{'op': 'set', 'target': sw, 'value': 0},
                     {'op': 'eval', 'target': e}])
     return {'property': ID, 'seed': seed, 'knobs': {}, 'world': world,
             'ops': ops}
@@ -631,7 +640,8 @@ def run_case(case):
                 else:
                     # measuring pass on a pristine copy (it has to satisfy
                     # the oracles too)
-                    m2 = worlds.build_model(cells, names, default_sheet=s0)
+                    m2 = worlds.build_model(render(world), names,
+                                            default_sheet=s0)
                     uf2 = UserFuncs(fail_on=world.get('fail_on'))
                     ev2 = Evaluator(m2, uf2.namespace())
                     st = Stepper(**bud)
